@@ -46,6 +46,7 @@ class ReachMonitor:
         self.calls = {}
         self.lines = {}
         self.total = {}
+        self.all_lines = {}
         self.missing = []
         for spec in self.specs:
             try:
@@ -60,8 +61,9 @@ class ReachMonitor:
             self.codes[code] = spec
             self.calls[spec] = 0
             self.lines[spec] = set()
-            self.total[spec] = len({ln for _, _, ln in code.co_lines() if ln is not None
-                                    and ln != code.co_firstlineno})
+            self.all_lines[spec] = sorted({ln for _, _, ln in code.co_lines() if ln is not None
+                                           and ln != code.co_firstlineno})
+            self.total[spec] = len(self.all_lines[spec])
         self.active = False
 
     def start(self):
@@ -110,7 +112,8 @@ class ReachMonitor:
             code_first = None
             out[spec] = {'calls': self.calls[spec],
                          'lines_hit': sorted(self.lines[spec]),
-                         'lines_total': self.total[spec]}
+                         'lines_total': self.total[spec],
+                         'lines_all': self.all_lines.get(spec, [])}
         return out
 
 
